@@ -74,10 +74,21 @@ func NewFloatFromString(typ *types.FloatType, s string) (*Float, error) {
 			//
 			// > The 80-bit format used by x86 is represented as 0xK followed by 20
 			// > hexadecimal digits.
+			//
+			// A literal with fewer digits is read as LLVM reads it (FP80HexToIntPair
+			// in lib/AsmParser/LLLexer.cpp): the first (up to) four digits are
+			// the sign and exponent, the remaining digits the significand.
 			hex := strings.TrimPrefix(s, "0xK")
-			const hexLen = 8
-			part1 := hex[:hexLen/2]
-			part2 := hex[hexLen/2:]
+			const expLen = 4
+			n := len(hex)
+			if n > expLen {
+				n = expLen
+			}
+			part1 := hex[:n]
+			part2 := hex[n:]
+			if len(part2) == 0 {
+				part2 = "0"
+			}
 			se, err := strconv.ParseUint(part1, 16, 16)
 			if err != nil {
 				return nil, errors.WithStack(err)
@@ -125,6 +136,10 @@ func NewFloatFromString(typ *types.FloatType, s string) (*Float, error) {
 			// > represented by 0xM followed by 32 hexadecimal digits.
 			hex := strings.TrimPrefix(s, "0xM")
 			const maxHexLen = 32
+			if len(hex) < maxHexLen {
+				// pad with leading zeroes (e.g. for case like `0xM01`)
+				hex = strings.Repeat("0", maxHexLen-len(hex)) + hex
+			}
 			part1 := hex[:maxHexLen/2]
 			part2 := hex[maxHexLen/2:]
 			a, err := strconv.ParseUint(part1, 16, 64)
